@@ -203,6 +203,23 @@ def maybe_twice(twice, fn, *args, **kw):
     return fn(*args, **kw)
 
 
+# The validator process may have unrelated entries in the plugin registries (another
+# part of the application installed them): plugins that look and change nothing must
+# not move a verdict.  (reset_world empties both scopes at the start of the next run.)
+def _ambient_sigext(tape, stack, cache):
+    return None
+
+
+def _ambient_template(tape, stack, cache):
+    return False
+
+
+def ambient_plugins():
+    from .seams import F
+    F.add_signature_extension(_ambient_sigext)
+    F.add_plugin('check_template', _ambient_template)
+
+
 def in_form(script, how):
     from .seams import T
     if how == 'bytes':
